@@ -33,7 +33,13 @@ def gen_history(rng, strings, idx):
         if runtime_path:
             body.append("p%d := %s" % (k, P))
             P = "p%d" % k
-        op = rng.choice(["write", "write", "append", "read", "exists"])
+        op = rng.choice(["write", "write", "append", "read", "exists", "exists-special"])
+        if op == "exists-special":
+            # paths that exist without being regular files: a device, a directory, the working directory
+            sp, ex = rng.choice([("/dev/null", 1), (".", 1), ("/", 1), ("/dev", 1), ("/dev/nonexistent-node", 0), ("", 0)])
+            body.append('print("x", exists(%s))' % gen_strings.go_quote(sp))
+            out.append("x %d" % ex)
+            continue
         if op in ("write", "append"):
             s = rng.choice(strings)
             meta_strings.append(s)
